@@ -556,6 +556,8 @@ static void c08_configure(char which)
     if (which == 'A') rt_select(&p, 0, "vcam0", "vstore0");
     if (which == 'B') rt_select(&p, 0, "vcam1", "vstore1");
     if (which == 'F') { rt_select(&p, 0, "vcam0", "vstore0"); p.video[0].frame_average_count = 2; p.video[0].max_frame_count = 6; } // like A with frame averaging
+    VM.store[0].fail_append_at = -1;
+    if (which == 'E') { rt_select(&p, 0, "vcam0", "vstore0"); VM.store[0].fail_append_at = 0; }  // like A, but the storage device fails its first append: the workers wind down on their own
     if (which == 'R') { rt_select(&p, 0, "vcam0", "vstore0"); VM.cam[0].fail_set = 1; }  // like A, but the camera rejects the first set call of this configure
     if (which == 'C') rt_select(&p, 0, "vcam0", "vstore1"); // same camera, another storage of the same driver
     if (which == 'D') rt_select(&p, 0, "vcam1", "vstore0"); // another camera, same storage
@@ -568,8 +570,8 @@ static void c08_state_oracle(const char* after)
 {
     // worker flags only fall during a call of the client (nobody else starts an acquisition), so "Running" is justified iff a
     // worker was alive BEFORE the call; sampling them afterwards would race with workers that exit meanwhile
-    int alive_before = 0;
-    for (int s = 0; s < 2; ++s) alive_before |= rt->video[s].source.is_running | rt->video[s].filter.is_running | rt->video[s].sink.is_running;
+    // (thread liveness is the scheduler's, not the runtime's own is_running flags, which are what acquire_get_state reads)
+    int alive_before = vs_live_threads() > 0;
     enum DeviceState st = acquire_get_state(RT);
     if (st == DeviceState_Running && !alive_before)
         vs_fail("C08:running-without-live-workers", "acquire_get_state reports Running after %s although no worker of any stream was alive", after);
@@ -584,7 +586,7 @@ static void c08_run(void)
     for (const char* p = prog; *p; ++p) {
         char one[2] = { *p, 0 };
         switch (*p) {
-            case 'A': case 'B': case 'C': case 'D': case 'F': case 'R': case '2': case '0': c08_configure(*p); break;
+            case 'A': case 'B': case 'C': case 'D': case 'E': case 'F': case 'R': case '2': case '0': c08_configure(*p); break;
             case 's': acquire_start(RT); break;
             case 't': acquire_execute_trigger(RT, 0); break;
             case 'm': {
@@ -623,7 +625,8 @@ static void c08_check(void)
         const char* dn = d->kind == 1 ? "vcam" : "vstore";
         if (d->open) vs_fail("C08:device-left-open-after-shutdown", "%s%d was opened %d times and closed %d times; it is still open after acquire_shutdown", dn, d->idx, d->opens, d->closes);
         if (d->opens != d->closes) vs_fail("C08:open-close-mismatch", "%s%d opened %d times, closed %d times", dn, d->idx, d->opens, d->closes);
-        if (d->stops != d->acq) vs_fail("C08:start-stop-mismatch", "%s%d: %d successful starts but %d stops", dn, d->idx, d->acq, d->stops);
+        // every successful start is ended exactly once: by a stop call, or by the device itself (failing append; a stop after that is optional)
+        if (d->stops > d->acq || d->stops + d->self_stops < d->acq) vs_fail("C08:start-stop-mismatch", "%s%d: %d successful starts but %d stops (%d runs ended by the device itself)", dn, d->idx, d->acq, d->stops, d->self_stops);
         vs_observe_u64((uint64_t)d->opens * 1000 + (uint64_t)d->acq * 10 + (uint64_t)d->stops);
     }
     if (VM.driver_shutdowns != g_c08_shutdowns) vs_fail("C08:driver-shutdown-count", "%d runtime shutdowns but the driver's shutdown was called %d times", g_c08_shutdowns, VM.driver_shutdowns);
